@@ -2,7 +2,7 @@ SPECIFICATION Spec
 CONSTANTS
   Reqs = {1, 2, 3}
   MaxSteps = 7
-  Ops = {"call", "resp", "data"}
+  Ops = {"call", "resp", "data", "interim"}
   EmitOneIn = 1
   RespSizes = {0, 1, 3}
   BodySizes = {0, 3}
